@@ -150,7 +150,8 @@ def sched_knobs(cfg):
     return {"lat": lambda ch, label: prof[ch.draw("net." + label, len(prof))],
             "start": lambda ch, ci: [0.0, 0.0, 0.5, 5.0][ch.draw("sched.start", 4)],
             "preempt_den": cfg["preempt_den"], "budget": 7200.0, "shared_headers": cfg.get("shared_headers", False),
-            "debug_logging": cfg.get("debug_logging", False), "second_client": cfg.get("second_client", False)}
+            "debug_logging": cfg.get("debug_logging", False), "second_client": cfg.get("second_client", False),
+            "user_warnings_as_errors": cfg.get("user_warnings_as_errors", False)}
 
 
 def _nonce_faults(callers):
